@@ -185,4 +185,4 @@ Proof. eexists. eexists. split; [vm_compute; reflexivity|]. split; vm_compute; r
 Lemma default_refuses :
   exists st, mrun cfg_default (init 0) (firstn 6 (happy 1 (RespPair (blkForged 1) (certForged 1)))) = Some st /\
              s_latest st = 0 /\ pc_of st 1 = Some PTop.
-Proof. eexists. split; vm_compute; reflexivity. Qed.
+Proof. eexists. split; [vm_compute; reflexivity|]. split; vm_compute; reflexivity. Qed.
